@@ -86,10 +86,11 @@ class Fn:
 
     # ---- boolean flags: `let ok = a < 24 && b < 60;` ... `if ok { .. }` --------------------------
     def flags(self):
-        """{bool local: (id of its single computed definition, the constant all its other definitions assign)} for locals written as
-        `const c` on some branches and by one computed assignment on another (the lowering of `&&` / `||` chains stored in a variable)"""
+        """{bool local: [(id of definition, constant it assigns or None if computed)]} for locals with at least two definitions, all plain assignments, at least one of
+        them a constant (the lowering of `&&` / `||` chains and of `match` arms yielding true / false / a test, stored in a variable)"""
         if self._flags is None:
             defs = {}
+            calls = set()
             for b in self.blocks:
                 if b.get("cleanup"):
                     continue
@@ -98,23 +99,24 @@ class Fn:
                         defs.setdefault(st["pl"]["l"], []).append(st)
                 t = b["t"]
                 if t["k"] == "call" and t.get("dest") and not t["dest"]["p"]:
-                    defs.setdefault(t["dest"]["l"], []).append(t)
+                    calls.add(t["dest"]["l"])
             out = {}
             for l, ds in defs.items():
-                if self.E.ty(self.ltys[l]).get("k") != "bool" or len(ds) < 2:
+                if self.E.ty(self.ltys[l]).get("k") != "bool" or len(ds) < 2 or l in calls:
                     continue
-                consts = [d for d in ds if d.get("k") == "assign" and d["rv"]["k"] == "use" and d["rv"]["x"]["k"] == "const" and isinstance(d["rv"]["x"].get("v"), bool)]
-                other = [d for d in ds if d not in consts]
-                if len(other) == 1 and other[0].get("k") == "assign" and len({d["rv"]["x"]["v"] for d in consts}) == 1:
-                    out[l] = (id(other[0]), consts[0]["rv"]["x"]["v"])
+                entry = []
+                for d in ds:
+                    isc = d["rv"]["k"] == "use" and d["rv"]["x"]["k"] == "const" and isinstance(d["rv"]["x"].get("v"), bool)
+                    entry.append((id(d), d["rv"]["x"]["v"] if isc else None))
+                if any(c is not None for _, c in entry) and any(c is None for _, c in entry):
+                    out[l] = entry
             self._flags = out
         return self._flags
 
-    def flag_between(self, l, sb):
-        """locals that may be (re)defined on some way from the computed definition of flag l to the end of block sb (static, conservative)"""
-        key = (l, sb)
+    def flag_between(self, l, sb, did):
+        """locals that may be (re)defined on some way from the definition `did` of flag l to the end of block sb (static, conservative)"""
+        key = (l, sb, did)
         if key not in self._between:
-            did = self.flags()[l][0]
             dblock = None
             after = set()
             for bi, b in enumerate(self.blocks):
@@ -158,31 +160,52 @@ class Fn:
         return self._between[key]
 
     def flag_meet(self, s2, l, v, vals, sb=None):
-        """on the edge where flag l differs from its constant, the state is also the state its computed definition left behind (for locals not redefined since)"""
+        """on the edge where flag l has the value v, the state is (also) the join of the states that the definitions able to produce v left behind - a constant definition
+        with that value as it is, a computed definition refined by its own comparison - for the integer locals not redefined since"""
         fl = self.flags().get(l)
-        snap = self.flag_snap.get(l)
-        if fl is None or snap is None:
-            return True
-        redefined = self.flag_between(l, sb) if sb is not None else None
-        if redefined is None:
+        snaps = self.flag_snap.get(l)
+        if fl is None or not snaps or sb is None:
             return True
         truth = (v == 1) if v is not None else (0 in vals)
-        if truth == bool(fl[1]):
+        cands = []
+        for did, cv in fl:
+            if cv is not None and bool(cv) != truth:
+                continue
+            snap = snaps.get(did)
+            if snap is None:
+                continue            # a definition not reached (so far): contributes nothing
+            red = self.flag_between(l, sb, did)
+            if red is None:
+                return True
+            sn = snap
+            if cv is None:
+                if l in snap.cmp:
+                    sn = snap.clone()
+                    if not self.apply_cmp(sn, snap.cmp[l], truth):
+                        continue    # this definition cannot yield v
+            cands.append((sn, red))
+        if not cands:
             return True
-        for k, val in snap.loc.items():
-            if k == l or val == BOT or val[0] != "i":
-                continue
-            if s2.ver.get(k, 0) != snap.ver.get(k, 0) or k in redefined:
-                continue
+        keys = None
+        for sn, red in cands:
+            ks = {k for k, val in sn.loc.items() if k != l and val != BOT and val[0] == "i" and k not in red and s2.ver.get(k, 0) == sn.ver.get(k, 0)}
+            keys = ks if keys is None else keys & ks
+        for k in keys or ():
             cur = s2.loc.get(k)
             if cur is None or cur == BOT or cur[0] != "i":
                 continue
-            lo, hi = max(cur[1], val[1]), min(cur[2], val[2])
+            lo = min(sn.loc[k][1] for sn, _ in cands)
+            hi = max(sn.loc[k][2] for sn, _ in cands)
+            lo, hi = max(cur[1], lo), min(cur[2], hi)
             if lo > hi:
                 return False
             s2.loc[k] = ("i", lo, hi)
-        if l in snap.cmp:
-            return self.apply_cmp(s2, snap.cmp[l], truth)
+        if len(cands) == 1 and len([1 for _, cv in fl if cv is None]) == 1 and all(cv is None or bool(cv) != truth for _, cv in fl):
+            # only the computed definition can yield v: its comparison holds on this edge (relational facts too)
+            did = [d for d, cv in fl if cv is None][0]
+            snap = snaps.get(did)
+            if snap is not None and l in snap.cmp:
+                return self.apply_cmp(s2, snap.cmp[l], truth)
         return True
 
     # ---- checked narrowing: `let y = x as T; if y as U != x { reject }` ------------------------
@@ -771,8 +794,8 @@ class Fn:
         if not proj and facts:
             kind, f = facts
             getattr(st, kind)[pl["l"]] = f
-        if not proj and pl["l"] in self.flags() and self.flags()[pl["l"]][0] == id(s):
-            self.flag_snap[pl["l"]] = st.clone()
+        if not proj and pl["l"] in self.flags() and any(d == id(s) for d, _ in self.flags()[pl["l"]]):
+            self.flag_snap.setdefault(pl["l"], {})[id(s)] = st.clone()
 
     def src_of(self, st, o):
         """source descriptor of an operand for later refinement: ('pl', local, proj, ver) or None"""
